@@ -88,6 +88,17 @@ def _shifted(x, y, z, *, Bz, cx, cy, field_units="mT", length_units="um"):
     return A
 
 
+def shifted_ramp(b0, b1, tau, cx, cy, field_units="mT", length_units="um"):
+    import tdgl
+    return tdgl.Parameter(_shifted_ramp, time_dependent=True, b0=float(b0), b1=float(b1), tau=float(tau),
+                          cx=float(cx), cy=float(cy), field_units=field_units, length_units=length_units)
+
+
+def _shifted_ramp(x, y, z, *, t, b0, b1, tau, cx, cy, field_units="mT", length_units="um"):
+    Bz = b0 + (b1 - b0) * min(max(t / tau, 0.0), 1.0)
+    return _shifted(x, y, z, Bz=Bz, cx=cx, cy=cy, field_units=field_units, length_units=length_units)
+
+
 def make_seed(dev, td, psi0):
     """A Solution object carrying a chosen initial state (obtained from a one-step run)."""
     opts = runs.make_options(td, solve_time=1e-4, dt_init=1e-4, dt_max=1e-4, adaptive=False, save_every=1000,
@@ -129,10 +140,17 @@ def run_pair(rep, rng, ci, cfg):
         from tdgl.solver.solver import TDGLSolver
         s_probe = TDGLSolver(dev, opts, applied_vector_potential=shifted_field(cfg["B"], 0, 0))
         A_scale = s_probe.A_scale
+        if cfg.get("shift_dimensionless"):
+            cx, cy = cx / A_scale, cy / A_scale
         chi = (A_scale * cx) * dev.mesh.sites[:, 0] + (A_scale * cy) * dev.mesh.sites[:, 1]
         g = np.exp(1j * chi)
         seed2 = make_seed(dev, td, psi0 * g)
-        for tag, A, seed in (("a", shifted_field(cfg["B"], 0, 0), seed1), ("b", shifted_field(cfg["B"], cx, cy), seed2)):
+        if cfg.get("ramp"):
+            b0, b1, tau = cfg["ramp"]
+            fields = (shifted_ramp(b0, b1, tau, 0, 0), shifted_ramp(b0, b1, tau, cx, cy))
+        else:
+            fields = (shifted_field(cfg["B"], 0, 0), shifted_field(cfg["B"], cx, cy))
+        for tag, A, seed in (("a", fields[0], seed1), ("b", fields[1], seed2)):
             o = runs.make_options(td, solve_time=cfg["solve_time"], dt_init=1e-3, dt_max=2e-2, adaptive=cfg["adaptive"],
                                   save_every=10, output_file=f"{td}/run_{tag}.h5")
             sol, _ = runs.traced_solve(dev, o, A=A, currents=cur, seed_solution=seed)
@@ -202,6 +220,10 @@ def run(rep: common.Report, tier: str, seed: int, replay=None) -> int:
         dict(B=0.4, shift=(0.8, -0.5), terminals=0, holes=1, bias=0.0, adaptive=True, solve_time=0.6),
         dict(B=0.3, shift=(-1.0, 0.3), terminals=2, holes=0, bias=2.0, adaptive=True, solve_time=0.6),
         dict(B=0.0, shift=(0.5, 0.5), terminals=2, holes=1, bias=1.0, adaptive=False, solve_time=0.2),
+        # time-dependent field with a LARGE uniform shift (150, 120 in units of Bc2*xi): whether the operators are
+        # refreshed must not depend on the gauge
+        dict(B=0.0, ramp=(0.0, 3.0, 15.0), shift=(150.0, 120.0), shift_dimensionless=True, terminals=2, holes=0,
+             bias=1.0, adaptive=False, solve_time=0.4),
     ]
     if tier == "thorough":
         pairs = pairs * 4
